@@ -47,6 +47,31 @@ pub fn lex_xml(s: &str) -> Vec<Value> {
         let c = b[i];
         if c == '<' {
             let rest: String = b[i..b.len().min(i + 4)].iter().collect();
+            let rest9: String = b[i..b.len().min(i + 9)].iter().collect();
+            if rest9 == "<![CDATA[" {
+                // a CDATA section is character data up to the first "]]>"
+                let mut j = i + 9;
+                let mut found = None;
+                while j + 2 < b.len() {
+                    if b[j] == ']' && b[j + 1] == ']' && b[j + 2] == '>' {
+                        found = Some(j);
+                        break;
+                    }
+                    j += 1;
+                }
+                match found {
+                    Some(j) => {
+                        text.extend(b[i + 9..j].iter());
+                        i = j + 3;
+                    }
+                    None => {
+                        flush(&mut text, &mut out);
+                        out.push(json!(["B", "unterminated CDATA section"]));
+                        i = b.len();
+                    }
+                }
+                continue;
+            }
             if rest == "<!--" {
                 flush(&mut text, &mut out);
                 let mut j = i + 4;
